@@ -215,6 +215,9 @@ contract(F, "__lshift__.lshift_iterator.__iter__", types=dict(self="lshift_itera
                  "a_pos < len(%s.coords) and %s.coords[a_pos] == b_coord and a_payload is %s.payloads[a_pos]" % (A, A, A),
                  "typeis(a_payload, 'Payload')",
                  "implies(new_a_payload, a_payload.value == %s.g_default)" % A],
+             # what is kept: a box the body left with a non-default value is still stored at b_coord when the iteration ends
+             "before:a_pos += 1": [
+                 "implies(a_payload.value != %s.g_default, a_pos < len(%s.coords) and %s.coords[a_pos] == b_coord and %s.payloads[a_pos] is a_payload)" % (A, A, A, A)],
              "a_pos += 1": [
                  "forall(lambda j: implies(%s.coords[j] == b_coord, %s.payloads[j].value != %s.g_default), 0, len(%s.coords))" % (A, A, A, A),
                  KEPT_ONLY_WRITTEN % ("b_pos", "b.seq")],
@@ -290,6 +293,8 @@ REF_POST = [
 contract(F, "iterRangeShapeRef",
          cases=[dict(self="Fiber", start="int", end="int")],
          case_names=["unit_step"],
+         # only the membership-level postcondition of getPayloadRef is composed here, not its positional (shift) form
+         callee_views={"Fiber.getPayloadRef": ["same_elems", "unchanged_list"]},
          yields=dict(elem=ELEM, abstract="(yielded.coord, yielded.payload)"),
          requires=SHAPE_REQ, modifies=BOOK + ["list:self.coords", "list:self.payloads"],
          per_case={"unit_step": dict(ensures=["forall(lambda k: out[k][0] == start + k, 0, len(out))"])},
